@@ -5,6 +5,7 @@
   unix.rs on this run.  Delivery of `kill(-pgid, …)` to every member of the group, and that nothing
   survives SIGKILL, are the kernel's: observed end-to-end.
 -/
+import NextestModel.Lemmas.System
 import NextestModel.Model.Unit
 import NextestModel.Model.Dispatcher
 import NextestModel.Gen.Tables
@@ -157,6 +158,41 @@ theorem unit_can_always_finish (c : Cfg) (u : U) : (run c u (escape c u)).1.phas
   | terminating w =>
     simp only [run, step, hp]
     simp [advance, nextDue, elapse, fire]
+
+/-! ## The whole system: the signal reaches every unit that is running -/
+
+section system
+open NextestModel.System NextestModel.Dispatcher
+
+/-- **A shutdown signal reaches every running test** — in every state the dispatcher × units system can reach (any number of
+    tests, any max-fail, EVERY interleaving of scheduling, attempt ends, retries, cancellations for other reasons, earlier
+    signals …), when a shutdown signal arrives every unit whose attempt is in progress, or that is between attempts, gets the
+    corresponding request in its mailbox: the signal itself the first time (`once sg`, forwarded as that signal:
+    `shutdown_forwarded_same_signal`), "kill" the second time.  Two facts carry it: such a unit is registered with an open
+    receiver (`Inv.reg`), and before the first signal the cancel state is below the signal level, so `begin_cancel` never
+    swallows the request (`SigInv`). -/
+theorem shutdown_reaches_every_running_unit (n : Nat) (mf : MaxFail) (acts : List System.Act) (s : Sys)
+    (h : runActs (Sys.init n mf) acts = some s) (sg : Dispatcher.Sig) (s' : Sys)
+    (hs : System.step s (.external (.shutdown sg)) = some s') (i : Nat)
+    (hact : s.phase i = .running ∨ s.phase i = .delay ∨ s.phase i = .waitRetry) :
+    Req.shutdown (shutdownReqFor s.d sg) ∈ s'.mail i ∧ s'.phase i = s.phase i := by
+  have hinv := inv_run acts _ s (inv_init n mf) h
+  have hsig := sig_run acts _ s (sigInv_init n mf) h
+  simp only [System.step, isExternal, if_true] at hs
+  split at hs
+  · cases hs
+  · rename_i d' o hd
+    simp only [Option.some.injEq] at hs
+    subst hs
+    have := shutdown_broadcast s.d sg d' o hsig hd i (hinv.reg i hact)
+    exact ⟨List.mem_append_right _ (mem_deliveredTo _ _ _ this), rfl⟩
+
+/-- a third shutdown signal is the one event the dispatcher refuses by design ("Signaled 3 times"): the model has it, the
+    property (pairs of signals) does not reach it -/
+example : (runActs (Sys.init 1 .all) [.external (.shutdown .interrupt), .external (.shutdown .term), .external (.shutdown .term)]).isNone = true := by
+  decide
+
+end system
 
 /-! ## Non-vacuity -/
 example : (run { period := 1000, terminateAfter := none, grace := 300, leak := 100 } (U.spawn { period := 1000, terminateAfter := none, grace := 300, leak := 100 })
